@@ -13,11 +13,13 @@ import (
 	"verif/harness/hk"
 )
 
-// env: one real Streamable-HTTP server (httptest) in one response mode and one real client connected to it.
-// The handlers return whatever `cur*` holds; the harness is single-threaded per env.
+// env: one real server (httptest / stdio loop on pipes) in one mode and one real client (or reference peer) connected to it.
+// The handlers return whatever `cur*` holds; the harness is single-threaded per env. Every call goes through `bounded`
+// (bounded.go): a call that does not return is a failing input, the env then reconnects (fresh server, client, session).
 type env struct {
 	c    *hk.Ctx
-	mode string // "json" | "sse"
+	mode string // "json" | "sse" | "stateless-json" | "stateless-sse" | "legacy-sse" | "stdio"
+	lite bool   // a variant of a mode that is run in full elsewhere: fewer random cases
 	fx   *hk.Fixture
 	cl   *mcp.Client
 
@@ -32,6 +34,12 @@ type env struct {
 	tools     []*mcp.Tool
 	prompts   []*mcp.Prompt
 	resources []*mcp.Resource
+
+	// bounded calls (bounded.go)
+	timeouts   int            // calls that never returned on this transport
+	opTimeouts map[string]int // ... per operation
+	dead       bool           // too many of them: the remaining calls are skipped (counted)
+	lastNever  bool           // the last call never returned / was skipped (its loss is already reported)
 }
 
 const (
@@ -53,11 +61,47 @@ type registrar struct {
 }
 
 func newEnv(c *hk.Ctx, mode string) *env {
-	e := &env{c: c, mode: mode}
+	e := &env{c: c, mode: mode, opTimeouts: map[string]int{}}
+	e.lite = strings.HasPrefix(mode, "stateless-")
+	// descriptors under test (handlers are irrelevant for them)
+	e.tools = append(fixedTools(), keywordTools()...)
+	e.prompts = []*mcp.Prompt{
+		{Name: "echo", Description: "returns the value under test"},
+		{Name: "with-args", Description: "a <prompt> & its args", Arguments: []mcp.PromptArgument{{Name: "topic", Description: "what about", Required: true}, {Name: "tone"}}},
+		{Name: "bare"},
+	}
+	for _, cl := range strClasses {
+		e.prompts = append(e.prompts, &mcp.Prompt{Name: "cls-" + cl, Description: classRep[cl], Arguments: []mcp.PromptArgument{{Name: "a", Description: classRep[cl]}}})
+	}
+	e.prompts = append(e.prompts, keywordPrompts()...)
+	multi := &mcp.Resource{Name: "multi", URI: uriMulti, Description: "several contents", MimeType: "text/plain", Size: 1234}
+	multi.Annotations = &annT{Audience: []mcp.Role{mcp.RoleUser}, Priority: 0.5}
+	single := &mcp.Resource{Name: "single", URI: uriSingle}
+	e.resources = []*mcp.Resource{multi, single}
+	for i, cl := range strClasses {
+		r := &mcp.Resource{Name: classRep[cl], URI: fmt.Sprintf("res://cls/%d", i), Description: classRep[cl], MimeType: classRep[cl]}
+		if r.Name == "" {
+			r.Name = "n"
+		}
+		e.resources = append(e.resources, r)
+	}
+	e.resources = append(e.resources, keywordResources()...)
+	if err := e.connect(); err != nil {
+		panic(err)
+	}
+	return e
+}
+
+// connect: a fresh server with everything registered and a fresh client / peer (new session).
+func (e *env) connect() error {
+	mode := e.mode
 	var reg registrar
 	var url string
+	e.fx, e.cl, e.peer = nil, nil, nil
+	var stdio *mcp.StdioServer
 	if mode == "stdio" {
 		s := newStdioServer()
+		stdio = s
 		e.closeSrv = func() {}
 		reg = registrar{
 			tool:      func(t *mcp.Tool, h handlerT) { s.RegisterTool(t, h) },
@@ -65,7 +109,6 @@ func newEnv(c *hk.Ctx, mode string) *env {
 			resource:  func(r *mcp.Resource, h resHT) { s.RegisterResource(r, h) },
 			resources: func(r *mcp.Resource, h ressHT) { s.RegisterResources(r, h) },
 		}
-		defer func() { e.peer = newStdioPeer(s) }()
 	} else if mode == "legacy-sse" {
 		s := mcp.NewSSEServer("verif-server", "1.2.3", mcp.WithSSEServerLogger(hk.QuietLogger{}), mcp.WithSSEEndpoint("/sse"),
 			mcp.WithMessageEndpoint("/message"), mcp.WithBasePath(""))
@@ -81,7 +124,11 @@ func newEnv(c *hk.Ctx, mode string) *env {
 			resources: func(r *mcp.Resource, h ressHT) { s.RegisterResources(r, h) },
 		}
 	} else {
-		e.fx = hk.NewFixture(hk.SrvCfg{Mode: "stateful", Get: false, PostSSE: mode == "sse"})
+		srvMode := "stateful"
+		if strings.HasPrefix(mode, "stateless-") {
+			srvMode = "stateless"
+		}
+		e.fx = hk.NewFixture(hk.SrvCfg{Mode: srvMode, Get: false, PostSSE: strings.HasSuffix(mode, "sse")})
 		s := e.fx.S
 		e.closeSrv = e.fx.Close
 		url = e.fx.URL
@@ -92,8 +139,6 @@ func newEnv(c *hk.Ctx, mode string) *env {
 			resources: func(r *mcp.Resource, h ressHT) { s.RegisterResources(r, h) },
 		}
 	}
-	// descriptors under test (handlers are irrelevant for them)
-	e.tools = fixedTools()
 	for _, t := range e.tools {
 		reg.tool(t, func(ctx context.Context, req *mcp.CallToolRequest) (*mcp.CallToolResult, error) {
 			return mcp.NewTextResult("ok"), nil
@@ -106,14 +151,6 @@ func newEnv(c *hk.Ctx, mode string) *env {
 			}
 			return e.curResult, nil
 		})
-	e.prompts = []*mcp.Prompt{
-		{Name: "echo", Description: "returns the value under test"},
-		{Name: "with-args", Description: "a <prompt> & its args", Arguments: []mcp.PromptArgument{{Name: "topic", Description: "what about", Required: true}, {Name: "tone"}}},
-		{Name: "bare"},
-	}
-	for _, cl := range strClasses {
-		e.prompts = append(e.prompts, &mcp.Prompt{Name: "cls-" + cl, Description: classRep[cl], Arguments: []mcp.PromptArgument{{Name: "a", Description: classRep[cl]}}})
-	}
 	for _, p := range e.prompts {
 		reg.prompt(p, func(ctx context.Context, req *mcp.GetPromptRequest) (*mcp.GetPromptResult, error) {
 			if e.curErr != nil {
@@ -122,35 +159,32 @@ func newEnv(c *hk.Ctx, mode string) *env {
 			return e.curPrompt, nil
 		})
 	}
-	multi := &mcp.Resource{Name: "multi", URI: uriMulti, Description: "several contents", MimeType: "text/plain", Size: 1234}
-	multi.Annotations = &annT{Audience: []mcp.Role{mcp.RoleUser}, Priority: 0.5}
-	single := &mcp.Resource{Name: "single", URI: uriSingle}
-	e.resources = []*mcp.Resource{multi, single}
-	reg.resources(multi, func(ctx context.Context, req *mcp.ReadResourceRequest) ([]mcp.ResourceContents, error) {
-		if e.curErr != nil {
-			return nil, e.curErr
+	for _, r := range e.resources {
+		switch r.URI {
+		case uriMulti:
+			reg.resources(r, func(ctx context.Context, req *mcp.ReadResourceRequest) ([]mcp.ResourceContents, error) {
+				if e.curErr != nil {
+					return nil, e.curErr
+				}
+				return e.curRes, nil
+			})
+		case uriSingle:
+			reg.resource(r, func(ctx context.Context, req *mcp.ReadResourceRequest) (mcp.ResourceContents, error) {
+				if e.curErr != nil {
+					return nil, e.curErr
+				}
+				return e.curRes[0], nil
+			})
+		default:
+			reg.resource(r, func(ctx context.Context, req *mcp.ReadResourceRequest) (mcp.ResourceContents, error) {
+				return mcp.TextResourceContents{URI: req.Params.URI, Text: "x"}, nil
+			})
 		}
-		return e.curRes, nil
-	})
-	reg.resource(single, func(ctx context.Context, req *mcp.ReadResourceRequest) (mcp.ResourceContents, error) {
-		if e.curErr != nil {
-			return nil, e.curErr
-		}
-		return e.curRes[0], nil
-	})
-	for i, cl := range strClasses {
-		r := &mcp.Resource{Name: classRep[cl], URI: fmt.Sprintf("res://cls/%d", i), Description: classRep[cl], MimeType: classRep[cl]}
-		if r.Name == "" {
-			r.Name = "n"
-		}
-		e.resources = append(e.resources, r)
-		reg.resource(r, func(ctx context.Context, req *mcp.ReadResourceRequest) (mcp.ResourceContents, error) {
-			return mcp.TextResourceContents{URI: req.Params.URI, Text: "x"}, nil
-		})
 	}
 
 	if mode == "stdio" {
-		return e
+		e.peer = newStdioPeer(stdio)
+		return nil
 	}
 	var cl *mcp.Client
 	var err error
@@ -161,15 +195,15 @@ func newEnv(c *hk.Ctx, mode string) *env {
 			mcp.WithClientLogger(hk.QuietLogger{}), mcp.WithClientGetSSEEnabled(false))
 	}
 	if err != nil {
-		panic(err)
+		return err
 	}
 	ctx, cancel := context.WithTimeout(context.Background(), 20*time.Second)
 	defer cancel()
 	if _, err := cl.Initialize(ctx, &mcp.InitializeRequest{}); err != nil {
-		panic(fmt.Sprintf("initialize (%s): %v", mode, err))
+		return fmt.Errorf("initialize (%s): %v", mode, err)
 	}
 	e.cl = cl
-	return e
+	return nil
 }
 
 func (e *env) close() {
@@ -177,97 +211,90 @@ func (e *env) close() {
 		e.peer.close()
 		return
 	}
-	e.cl.Close()
+	if e.cl != nil {
+		e.cl.Close()
+	}
 	e.closeSrv()
 }
 
-func ctx60() (context.Context, context.CancelFunc) {
-	return context.WithTimeout(context.Background(), 60*time.Second)
-}
-
-// ---- calls: what the caller obtains, in spec shape
+// ---- calls: what the caller obtains, in spec shape (each one bounded, see bounded.go)
 
 func (e *env) callTool() (view any, err error) {
-	ctx, cancel := ctx60()
-	defer cancel()
-	if e.peer != nil {
-		raw, rerr, err := e.peer.request("tools/call", map[string]any{"name": "echo"})
-		if err != nil {
-			return nil, err
+	return e.bounded("tools/call", func() any { return viewResult(e.curResult) }, resultSize(e.curResult), func(ctx context.Context) (any, error) {
+		if e.peer != nil {
+			raw, rerr, err := e.peer.request(ctx, "tools/call", map[string]any{"name": "echo"})
+			if err != nil {
+				return nil, err
+			}
+			if rerr != nil {
+				return nil, rerr.asError("tool call error")
+			}
+			r, err := mcp.VerifParseCallToolResult(raw)
+			if err != nil {
+				return nil, err
+			}
+			return viewResult(r), nil
 		}
-		if rerr != nil {
-			return nil, rerr.asError("tool call error")
-		}
-		r, err := mcp.VerifParseCallToolResult(raw)
+		req := &mcp.CallToolRequest{}
+		req.Params.Name = "echo"
+		r, err := e.cl.CallTool(ctx, req)
 		if err != nil {
 			return nil, err
 		}
 		return viewResult(r), nil
-	}
-	req := &mcp.CallToolRequest{}
-	req.Params.Name = "echo"
-	r, err := e.cl.CallTool(ctx, req)
-	if err != nil {
-		return nil, err
-	}
-	return viewResult(r), nil
+	})
 }
 
 func (e *env) getPrompt() (view any, err error) {
-	defer func() {
-		if r := recover(); r != nil {
-			err = fmt.Errorf("panic: %v", r)
+	return e.bounded("prompts/get", func() any { return viewPrompt(e.curPrompt) }, promptSize(e.curPrompt), func(ctx context.Context) (any, error) {
+		if e.peer != nil {
+			raw, rerr, err := e.peer.request(ctx, "prompts/get", map[string]any{"name": "echo"})
+			if err != nil {
+				return nil, err
+			}
+			if rerr != nil {
+				return nil, rerr.asError("get prompt error")
+			}
+			r, err := mcp.VerifParseGetPromptResult(raw)
+			if err != nil {
+				return nil, err
+			}
+			return viewPrompt(r), nil
 		}
-	}()
-	ctx, cancel := ctx60()
-	defer cancel()
-	if e.peer != nil {
-		raw, rerr, err := e.peer.request("prompts/get", map[string]any{"name": "echo"})
-		if err != nil {
-			return nil, err
-		}
-		if rerr != nil {
-			return nil, rerr.asError("get prompt error")
-		}
-		r, err := mcp.VerifParseGetPromptResult(raw)
+		req := &mcp.GetPromptRequest{}
+		req.Params.Name = "echo"
+		r, err := e.cl.GetPrompt(ctx, req)
 		if err != nil {
 			return nil, err
 		}
 		return viewPrompt(r), nil
-	}
-	req := &mcp.GetPromptRequest{}
-	req.Params.Name = "echo"
-	r, err := e.cl.GetPrompt(ctx, req)
-	if err != nil {
-		return nil, err
-	}
-	return viewPrompt(r), nil
+	})
 }
 
 func (e *env) readResource(uri string) (view any, err error) {
-	ctx, cancel := ctx60()
-	defer cancel()
-	if e.peer != nil {
-		raw, rerr, err := e.peer.request("resources/read", map[string]any{"uri": uri})
-		if err != nil {
-			return nil, err
+	return e.bounded("resources/read", func() any { return map[string]any{"uri": uri, "contents": viewResources(e.curRes)} }, resourcesSize(e.curRes), func(ctx context.Context) (any, error) {
+		if e.peer != nil {
+			raw, rerr, err := e.peer.request(ctx, "resources/read", map[string]any{"uri": uri})
+			if err != nil {
+				return nil, err
+			}
+			if rerr != nil {
+				return nil, rerr.asError("read resource error")
+			}
+			r, err := mcp.VerifParseReadResourceResult(raw)
+			if err != nil {
+				return nil, err
+			}
+			return viewResources(r.Contents), nil
 		}
-		if rerr != nil {
-			return nil, rerr.asError("read resource error")
-		}
-		r, err := mcp.VerifParseReadResourceResult(raw)
+		req := &mcp.ReadResourceRequest{}
+		req.Params.URI = uri
+		r, err := e.cl.ReadResource(ctx, req)
 		if err != nil {
 			return nil, err
 		}
 		return viewResources(r.Contents), nil
-	}
-	req := &mcp.ReadResourceRequest{}
-	req.Params.URI = uri
-	r, err := e.cl.ReadResource(ctx, req)
-	if err != nil {
-		return nil, err
-	}
-	return viewResources(r.Contents), nil
+	})
 }
 
 func outcomeOf(view any, err error) map[string]any {
@@ -401,20 +428,45 @@ func (l lossy) item(it spec) bool {
 	return false
 }
 
+// e2eModes: every transport / response mode the component runs end to end. The stateless Streamable variants run the
+// deterministic cases in full and fewer random ones (the code path differs from the stateful one only in the session layer).
+var e2eModes = []string{"json", "sse", "stateless-json", "stateless-sse", "legacy-sse", "stdio"}
+
 func runE2E(c *hk.Ctx) {
-	for _, mode := range []string{"json", "sse", "legacy-sse", "stdio"} {
+	for _, mode := range e2eModes {
 		e := newEnv(c, mode)
+		// first the fixed protocol-keyword cases and the descriptors (cheap, deterministic, independent of the seed) ...
+		e.keywordPath()
+		e.descriptors()
+		// ... then the probes and the random combinations
 		e.toolPath()
 		e.promptPath()
 		e.resourcePath()
 		e.errorPath()
 		e.sizes()
-		e.descriptors()
-		e.close()
+		e.finish()
 	}
 }
 
+// nRandom: how many random cases a path draws (quick, thorough); the lite variants draw a fifth.
+func (e *env) nRandom(quick, thorough int) int {
+	n := quick
+	if e.c.Thorough() {
+		n = thorough
+	}
+	if e.lite {
+		n /= 5
+	}
+	return n
+}
+
 func (e *env) violate(fp, what string, input, observed, expected any) {
+	if e.lastNever {
+		// the call behind this verdict never returned (or was skipped after repeated timeouts): that is reported, with the
+		// input, under content:<transport>:call-never-returns - not a second time as a lost value
+		e.c.Tag("e2e.loss-already-reported-as-never-returns." + e.mode)
+		return
+	}
 	e.c.Violate(hk.Violation{Fingerprint: fp, What: what, Input: map[string]any{"mode": e.mode, "value": input}, Observed: observed, Expected: expected})
 }
 
@@ -431,7 +483,9 @@ func (e *env) toolCase(v spec, tag string) (ok bool, view any, err error) {
 	e.curResult = goResult(v)
 	view, err = e.callTool()
 	out := outcomeOf(view, err)
-	if b := canonText(v); modelOK([]byte(b)) {
+	if e.lastNever {
+		e.c.Count("e2e.tool.never:"+e.mode+":"+tag, false, nil, "e2e.never-returned."+e.mode)
+	} else if b := canonText(v); modelOK([]byte(b)) {
 		e.c.Emit(op("e2e.tool", "mode", e.mode, "v", v), out, err == nil, "e2e.tool."+e.mode, tag)
 	} else {
 		e.c.Count("e2e.tool."+e.mode+":"+fmt.Sprint(len(b)), err == nil, nil, "e2e.tool."+e.mode, tag)
@@ -530,10 +584,7 @@ func (e *env) toolPath() {
 		}
 	}
 	// random combinations: expected to survive unless they contain a feature the probes showed to be lost
-	n := 150
-	if e.c.Thorough() {
-		n = 1500
-	}
+	n := e.nRandom(150, 1500)
 	for i := 0; i < n; i++ {
 		v := genResult(e.c.Rng)
 		ok, view, err := e.toolCase(v, "random")
@@ -570,7 +621,11 @@ func (e *env) promptCase(v spec, tag string) (ok bool, view any, err error) {
 	e.curPrompt = goPrompt(v)
 	view, err = e.getPrompt()
 	out := outcomeOf(view, err)
-	e.c.Emit(op("e2e.prompt", "mode", e.mode, "v", v), out, err == nil, "e2e.prompt."+e.mode, tag)
+	if e.lastNever {
+		e.c.Count("e2e.prompt.never:"+e.mode+":"+tag, false, nil, "e2e.never-returned."+e.mode)
+	} else {
+		e.c.Emit(op("e2e.prompt", "mode", e.mode, "v", v), out, err == nil, "e2e.prompt."+e.mode, tag)
+	}
 	return err == nil && canonText(normPromptSpec(v)) == canonText(view), view, err
 }
 
@@ -631,10 +686,7 @@ func (e *env) promptPath() {
 			e.violate("content:prompt:role-or-description-lost", "role / description strings of a prompt result are not what the caller receives", v, obs(view, err), v)
 		}
 	}
-	n := 100
-	if e.c.Thorough() {
-		n = 1000
-	}
+	n := e.nRandom(100, 1000)
 	for i := 0; i < n; i++ {
 		v := genPrompt(e.c.Rng)
 		ok, view, err := e.promptCase(v, "random")
@@ -659,7 +711,9 @@ func (e *env) resourceCase(uri string, v any, tag string) (ok bool, view any, er
 	e.curErr = nil
 	e.curRes = goResources(v)
 	view, err = e.readResource(uri)
-	if uri == uriMulti {
+	if e.lastNever {
+		e.c.Count("e2e.resource.never:"+e.mode+":"+tag, false, nil, "e2e.never-returned."+e.mode)
+	} else if uri == uriMulti {
 		e.c.Emit(op("e2e.resource", "mode", e.mode, "v", v), outcomeOf(view, err), err == nil, "e2e.resource."+e.mode, tag)
 	} else {
 		e.c.Count("e2e.resource.single:"+e.mode+":"+canonText(v), err == nil, nil, "e2e.resource.single."+e.mode)
@@ -698,10 +752,7 @@ func (e *env) resourcePath() {
 			e.violate("content:resource:list-lost", "a list of resource contents is not what the caller receives", v, obs(view, err), v)
 		}
 	}
-	n := 100
-	if e.c.Thorough() {
-		n = 1000
-	}
+	n := e.nRandom(100, 1000)
 	for i := 0; i < n; i++ {
 		v := genResources(e.c.Rng)
 		ok, view, err := e.resourceCase(uriMulti, v, "random")
@@ -718,10 +769,15 @@ func (e *env) errorPath() {
 		msgs = append(msgs, classRep[cl])
 	}
 	msgs = append(msgs, bigString(70000))
+	nCls := len(msgs)
+	// protocol keywords / envelope look-alikes as the error text
+	msgs = append(msgs, protoTexts...)
 	for i, m := range msgs {
 		cl := "big"
 		if i < len(strClasses) {
 			cl = strClasses[i]
+		} else if i >= nCls {
+			cl = "keyword"
 		}
 		e.curErr = errors.New(m)
 		e.curResult, e.curPrompt, e.curRes = mcp.NewTextResult("unused"), &mcp.GetPromptResult{}, []mcp.ResourceContents{mcp.TextResourceContents{URI: "u", Text: "t"}}
@@ -735,6 +791,9 @@ func (e *env) errorPath() {
 				view, err = e.getPrompt()
 			case "resource":
 				view, err = e.readResource(uriMulti)
+			}
+			if e.lastNever {
+				continue // reported as content:<transport>:call-never-returns
 			}
 			if err != nil && modelOK([]byte(m)) && e.peer == nil {
 				// T-diff: the exact error text (server-side wrapping, client-side prefix, code)
@@ -795,11 +854,11 @@ func shorten(v any) any {
 
 // listed == registered
 func (e *env) descriptors() {
-	ctx, cancel := ctx60()
-	defer cancel()
 	// tools
-	lt, err := e.listTools(ctx)
-	if err != nil {
+	lt, err := e.listTools()
+	if e.lastNever {
+		// reported as content:<transport>:call-never-returns
+	} else if err != nil {
 		e.violate("content:descriptor:tools-list-failed", "tools/list failed", nil, err.Error(), nil)
 	} else {
 		got := map[string]mcp.Tool{}
@@ -845,8 +904,9 @@ func (e *env) descriptors() {
 		e.c.Emit(op("e2e.tools", "mode", e.mode, "v", regSpecs), map[string]any{"ok": map[string]any{"tools": gotSpecs, "next": string(lt.NextCursor)}}, true, "e2e.tools."+e.mode)
 	}
 	// prompts
-	lp, err := e.listPrompts(ctx)
-	if err != nil {
+	lp, err := e.listPrompts()
+	if e.lastNever {
+	} else if err != nil {
 		e.violate("content:descriptor:prompts-list-failed", "prompts/list failed", nil, err.Error(), nil)
 	} else {
 		got := map[string]mcp.Prompt{}
@@ -867,8 +927,9 @@ func (e *env) descriptors() {
 		}
 	}
 	// resources
-	lr, err := e.listResources(ctx)
-	if err != nil {
+	lr, err := e.listResources()
+	if e.lastNever {
+	} else if err != nil {
 		e.violate("content:descriptor:resources-list-failed", "resources/list failed", nil, err.Error(), nil)
 	} else {
 		if len(lr.Resources) != len(e.resources) {
@@ -893,44 +954,77 @@ func keys(m map[string]mcp.Tool) []string {
 	return out
 }
 
-func (e *env) listTools(ctx context.Context) (*mcp.ListToolsResult, error) {
-	if e.peer == nil {
-		return e.cl.ListTools(ctx, &mcp.ListToolsRequest{})
+func (e *env) listTools() (*mcp.ListToolsResult, error) {
+	names := []any{}
+	for _, t := range e.tools {
+		names = append(names, t.Name)
 	}
-	raw, rerr, err := e.peer.request("tools/list", map[string]any{})
-	if err != nil {
-		return nil, err
+	v, err := e.bounded("tools/list", func() any { return map[string]any{"registered tools": names} }, 0, func(ctx context.Context) (any, error) {
+		if e.peer == nil {
+			return e.cl.ListTools(ctx, &mcp.ListToolsRequest{})
+		}
+		raw, rerr, err := e.peer.request(ctx, "tools/list", map[string]any{})
+		if err != nil {
+			return nil, err
+		}
+		if rerr != nil {
+			return nil, rerr.asError("list tools error")
+		}
+		return mcp.VerifParseListToolsResult(raw)
+	})
+	r, _ := v.(*mcp.ListToolsResult)
+	if err == nil && r == nil {
+		err = errors.New("nil result")
 	}
-	if rerr != nil {
-		return nil, rerr.asError("list tools error")
-	}
-	return mcp.VerifParseListToolsResult(raw)
+	return r, err
 }
 
-func (e *env) listPrompts(ctx context.Context) (*mcp.ListPromptsResult, error) {
-	if e.peer == nil {
-		return e.cl.ListPrompts(ctx, &mcp.ListPromptsRequest{})
+func (e *env) listPrompts() (*mcp.ListPromptsResult, error) {
+	names := []any{}
+	for _, p := range e.prompts {
+		names = append(names, p.Name)
 	}
-	raw, rerr, err := e.peer.request("prompts/list", map[string]any{})
-	if err != nil {
-		return nil, err
+	v, err := e.bounded("prompts/list", func() any { return map[string]any{"registered prompts": names} }, 0, func(ctx context.Context) (any, error) {
+		if e.peer == nil {
+			return e.cl.ListPrompts(ctx, &mcp.ListPromptsRequest{})
+		}
+		raw, rerr, err := e.peer.request(ctx, "prompts/list", map[string]any{})
+		if err != nil {
+			return nil, err
+		}
+		if rerr != nil {
+			return nil, rerr.asError("list prompts error")
+		}
+		return mcp.VerifParseListPromptsResult(raw)
+	})
+	r, _ := v.(*mcp.ListPromptsResult)
+	if err == nil && r == nil {
+		err = errors.New("nil result")
 	}
-	if rerr != nil {
-		return nil, rerr.asError("list prompts error")
-	}
-	return mcp.VerifParseListPromptsResult(raw)
+	return r, err
 }
 
-func (e *env) listResources(ctx context.Context) (*mcp.ListResourcesResult, error) {
-	if e.peer == nil {
-		return e.cl.ListResources(ctx, &mcp.ListResourcesRequest{})
+func (e *env) listResources() (*mcp.ListResourcesResult, error) {
+	names := []any{}
+	for _, r := range e.resources {
+		names = append(names, r.URI)
 	}
-	raw, rerr, err := e.peer.request("resources/list", map[string]any{})
-	if err != nil {
-		return nil, err
+	v, err := e.bounded("resources/list", func() any { return map[string]any{"registered resources": names} }, 0, func(ctx context.Context) (any, error) {
+		if e.peer == nil {
+			return e.cl.ListResources(ctx, &mcp.ListResourcesRequest{})
+		}
+		raw, rerr, err := e.peer.request(ctx, "resources/list", map[string]any{})
+		if err != nil {
+			return nil, err
+		}
+		if rerr != nil {
+			return nil, rerr.asError("list resources error")
+		}
+		return mcp.VerifParseListResourcesResult(raw)
+	})
+	r, _ := v.(*mcp.ListResourcesResult)
+	if err == nil && r == nil {
+		err = errors.New("nil result")
 	}
-	if rerr != nil {
-		return nil, rerr.asError("list resources error")
-	}
-	return mcp.VerifParseListResourcesResult(raw)
+	return r, err
 }
